@@ -28,3 +28,13 @@ def lemma_generator_position(j):
 def lemma_stated_form_admissible():
     """stated form + (parameters stored => simulator stored)  =>  the skipped stochastic nodes form a suffix   (pure logic)"""
     return 0
+
+
+def lemma_same_values(n):
+    """induction over the needed nodes 0 .. n-1 in execution order: every node's value with the pool equals its pool-free value;
+    step(k) instantiates determinism of node k (equal inputs and equal generator position give an equal output)"""
+    k = 0
+    while k < n:
+        step(k)
+        k = k + 1
+    return k
